@@ -11,6 +11,7 @@ mod fam_h;
 mod fam_o;
 mod fam_text;
 mod fam_text2;
+mod fam_text3;
 mod textgen;
 mod fam_work;
 mod gen;
@@ -45,6 +46,9 @@ fn main() {
         ("drive", "c14") => fam_text2::drive_c14(&a, &mut out),
         ("drive", "c17") => fam_text2::drive_c17(&a, &mut out),
         ("drive", "c20") => fam_text2::drive_c20(&a, &mut out),
+        ("drive", "c18") => fam_text3::drive_c18(&a, &mut out),
+        ("drive", "c16") => fam_text3::drive_c16(&a, &mut out),
+        ("drive", "c05") => fam_text3::drive_c05(&a, &mut out),
         ("drive", "c10ops") => fam_a::drive_c10ops(&a, &mut out),
         (m, f) => {
             eprintln!("unknown mode/family {} {}", m, f);
